@@ -14,7 +14,9 @@ REPO = os.environ.get("PENNE_REPO", "/repo")
 SPEC = os.path.join(VERIF, "spec")
 WORK = os.path.join(VERIF, "work")
 REPLAYS = os.path.join(VERIF, "replays")
-EVIDENCE = os.path.join(VERIF, "evidence")
+# evidence under /verif/evidence is only ever written by runs against /repo itself; runs against another
+# tree (PENNE_REPO=<scratch worktree>, used for seeded changes) write theirs under work/
+EVIDENCE = os.path.join(VERIF, "evidence") if os.path.realpath(REPO) == "/repo" else os.path.join(VERIF, "work", "evidence-other-tree")
 TOOLS_BIN = os.path.join(VERIF, "tools", "bin")
 
 
